@@ -76,6 +76,12 @@ class Skip(Exception):
     """Raised by a check to abandon a case (reason counted in evidence)."""
 
 
+class HarnessError(Exception):
+    """Raised by a check for a problem of the harness itself: always an
+    *error* (inconclusive), never attributed to the library even if photutils
+    frames are on the traceback."""
+
+
 class Case:
     """One generated case and everything the monitors observed on it."""
 
@@ -88,6 +94,7 @@ class Case:
         self.digest = None      # set by the check (digest of inputs); else from params
         self.nchecks = 0        # oracle comparisons evaluated
         self.violations = []    # list of dicts {what, mech, detail}
+        self._vkeys = {}
         self.skipped = None     # reason
         self.maxdev = {}        # name -> largest deviation observed
         self.notes = {}         # counters (e.g. schedules applied)
@@ -100,7 +107,12 @@ class Case:
         known findings (never random values)."""
         self.nchecks += 1
         if not ok:
-            if len(self.violations) < 20:
+            # ration records per distinct (what, mech) so that a defect that
+            # re-fires at every step never crowds out a new mechanism
+            key = what + '|' + json.dumps(_jsonable(mech or {}), sort_keys=True)
+            n = self._vkeys.get(key, 0)
+            self._vkeys[key] = n + 1
+            if n < 2 and len(self.violations) < 80:
                 self.violations.append({'what': what, 'mech': dict(mech or {}),
                                         'detail': _jsonable(detail)})
         return bool(ok)
